@@ -72,6 +72,10 @@ func (u *Unit) merge(base *State, sts []*State) *State {
 	conds := make([]Term, len(sts))
 	for i, s := range sts {
 		conds[i] = tAnd(s.pc[n0:]...)
+		// quantified facts buried under a disjunction cost the solvers dearly: keep such paths apart
+		if u.root().inlining == 0 && (strings.Contains(conds[i], "(forall ") || strings.Contains(conds[i], "(exists ")) {
+			return nil
+		}
 	}
 	m := sts[0].fork()
 	m.pc = base.pc[:n0:n0]
@@ -964,8 +968,17 @@ func (u *Unit) dryRun(st *State, run func(*State) []*State) (modVars map[types.O
 	savedObls := len(r.obls)
 	savedRej := r.rejected
 	savedPaths := r.paths
+	var savedRets []int
+	for _, f := range frames[r] {
+		savedRets = append(savedRets, len(f.returns))
+	}
 	d := st.fork()
 	outs := run(d)
+	for i, f := range frames[r] {
+		if i < len(savedRets) {
+			f.returns = f.returns[:savedRets[i]]
+		}
+	}
 	modVars = map[types.Object]bool{}
 	modHeaps = map[string]bool{}
 	for _, o := range outs {
@@ -1036,7 +1049,12 @@ func (u *Unit) havocForLoop(st *State, run func(*State) []*State) *State {
 			invariant := len(ws) > 0
 			seen := map[Term]bool{}
 			var uniq []Term
+			freshWrites := false
 			for _, w := range ws {
+				if rw := rootOfSub(w); u.root().allocSyms[rw] && maxSymID(rw) > mark {
+					freshWrites = true // a reference allocated inside the iteration: cannot alias anything older
+					continue
+				}
 				if maxSymID(w) > mark {
 					invariant = false
 					break
@@ -1047,10 +1065,22 @@ func (u *Unit) havocForLoop(st *State, run func(*State) []*State) *State {
 				}
 			}
 			if !invariant {
+				if u.eng.verbose {
+					fmt.Printf("  loop havoc: heap %s fully havoc'd (writes at %v, mark %d)\n", name, ws, mark)
+				}
 				continue
 			}
 			sort := u.root().heapSort[name]
 			es := arrayElemSort(sort)
+			if freshWrites {
+				var excl []Term
+				for _, w := range uniq {
+					excl = append(excl, tNot(tEq("r!qh", w)))
+				}
+				h.assume(fmt.Sprintf("(forall ((r!qh Int)) (! (=> %s (= (select %s r!qh) (select %s r!qh))) :pattern ((select %s r!qh))))",
+					tAnd(append([]Term{isOld("r!qh", st.frontier)}, excl...)...), h.heap[name], preT, h.heap[name]))
+				continue
+			}
 			t := preT
 			for _, w := range uniq {
 				t = tStore(t, w, u.fresh(name+".hv", es))
